@@ -1,5 +1,5 @@
 """C12 — imports expose exactly the public interface and modules compose."""
-import random, itertools, collections
+import re, random, itertools, collections
 from .. import common as C
 from .. import gen_prog as GP
 
@@ -208,10 +208,34 @@ def run(tier):
             mods = [("lib.pn", lib), ("main.pn", 'import "lib.pn";\n' + main_)]
             if order: mods.reverse()
             hyg.append(("hy%d.%d" % (hi, order), "".join("//// module %s\n%s" % m for m in mods), want))
+    # the interface as a whole: exported types used in the RETURN type and the parameters of exported functions (by
+    # value for words, through pointers for structures), and an imported function next to a constant of the
+    # importer that has its name - each behaves as the single file does, in every file order
+    iface = [
+        ([("color.pn", "pub word32 Color\n{\n\tr: u8,\n\tg: u8,\n\tb: u8,\n\ta: u8,\n}\npub fn make_color(r: u8) -> Color\n{\n\treturn: Color { r: r, g: 2, b: 3, a: 4 }\n}\npub fn brightness(c: Color) -> i32\n{\n\treturn: (c.r as i32) + (c.g as i32)\n}\n"),
+          ("main.pn", "import \"color.pn\";\nfn main() -> i32\n{\n\tvar c = make_color(40);\n\tprint!(brightness(c), \"\\n\");\n\treturn: 0\n}\n")], "42"),
+        ([("geometry.pn", "pub fn scale(x: i32) -> i32\n{\n\treturn: x * 2\n}\n"),
+          ("main.pn", "import \"geometry.pn\";\nconst scale: i32 = 10;\nfn main() -> i32\n{\n\tprint!(scale(scale) + 1, \"\\n\");\n\treturn: 0\n}\n")], "21"),
+        ([("settings.pn", "pub const scale: i32 = 10;\n"), ("geometry.pn", "pub fn scale(x: i32) -> i32\n{\n\treturn: x * 2\n}\n"),
+          ("main.pn", "import \"geometry.pn\";\nimport \"settings.pn\";\nfn main() -> i32\n{\n\tprint!(scale(scale) + 1, \"\\n\");\n\treturn: 0\n}\n")], "21"),
+        ([("shape.pn", "pub struct P\n{\n\tx: i32,\n\ty: i32,\n}\npub fn sum(p: P) -> i32\n{\n\treturn: p.x + p.y\n}\npub fn grow(p: &P)\n{\n\tp.x = p.x + 1;\n}\npub word16 W\n{\n\tlo: u8,\n\thi: u8,\n}\npub fn swap(w: W) -> W\n{\n\treturn: W { lo: w.hi, hi: w.lo }\n}\n"),
+          ("main.pn", "import \"shape.pn\";\nfn main() -> i32\n{\n\tvar p = P { x: 1, y: 2 };\n\tgrow(&p);\n\tvar w = swap(W { lo: 7, hi: 9 });\n\tprint!(sum(p), \" \", w.lo, \" \", w.hi, \"\\n\");\n\treturn: 0\n}\n")], "4 9 7"),
+        ([("len.pn", "pub const N: usize = 3;\npub fn total(a: []i32) -> i32\n{\n\treturn: a[0] + a[1] + a[2]\n}\npub fn fill(a: &[N]i32)\n{\n\ta[0] = 5;\n}\n"),
+          ("main.pn", "import \"len.pn\";\nfn main() -> i32\n{\n\tvar a: [N]i32 = [1, 2, 3];\n\tfill(&a);\n\tprint!(total(a), \" \", |a|, \"\\n\");\n\treturn: 0\n}\n")], "10 3")]
+    import itertools as _it
+    for ii, (mods, want) in enumerate(iface):
+        for oi, order in enumerate(_it.permutations(mods)):
+            hyg.append(("if%d.%d" % (ii, oi), "".join("//// module %s\n%s" % m for m in order), "iface:" + want))
+        hyg.append(("if%d.s" % ii, "".join(re.sub(r'import "[^"]*";\n', "", m[1]) for m in mods), "iface:" + want))       # the single file
     himpl = C.run_harness("exec", [(h[0], h[1]) for h in hyg], ck.work + "/hygiene", timeout=600)
     for cid, src, want in hyg:
         f = himpl.get(cid, ["missing"])
         got = C.unesc(f[1].split(" out=", 1)[1].split(" stderr=")[0]).decode(errors="replace").strip() if f[0].startswith("ok") and " out=" in f[1] else f[0]
+        if want.startswith("iface:"):
+            if got != want[6:]:
+                ck.violation("interface-behaves-differently" if f[0].startswith("ok") else ("interface-rejected:" + (f[0] if f[0].startswith("err codes=") else C.failure_key(f[0]))),
+                             "a program whose exported functions return / take exported types, or whose importer has a constant named like an imported function, gives `%s` (expected `%s`)" % (got[:200], want[6:]), src)
+            continue
         if got != want:
             ck.violation("private-name-captured-by-exported-item", "an exported constant / signature that uses a private name of its module is re-read in the importer's scope: the program prints `%s`, the single-file meaning is `%s`" % (got, want), src)
     rejected_priv = 0
